@@ -878,6 +878,7 @@ class FifoModel:
     _pyvc_model = True
 
     def put(ip, self, x):
+        ip.ctx.event('queue.put', id(self), x, tuple(id(l) for l in ip.ctx.held))
         self.attrs['items'].append(x)
     put._pyvc_native = True
 
@@ -970,6 +971,13 @@ class ParserQueuePutBytes(Contract):
         items = pq_items(h)
         out = {'earlier-messages-stay-in-front': items[:2] == h.earlier, 'exactly-one-added': len(items) == 3,
                'parser-queue-drained': len(attrs_of(h.parser)['messages']) == 0}
+        # the bytes went THROUGH the parser: a complete message ends whatever was open before (else a later data byte would
+        # complete the stale partial message - the result would depend on how the stream was chunked)
+        tattrs = attrs_of(h.tok)
+        if cfg['type'] in S.REALTIME_TYPES:
+            out['realtime-does-not-extend-the-partial-message'] = Or(eq(cur_of(tattrs), h.cur0), eq(cur_of(tattrs), empty()))
+        else:
+            out['no-partial-message-left'] = eq(V(tattrs['_status']), 0)
         if len(items) == 3:
             cl, enc = message_clauses(items[2], 'message.')
             out.update(cl)
@@ -977,6 +985,57 @@ class ParserQueuePutBytes(Contract):
             for nm in S.TYPES[cfg['type']]['names']:
                 out['%s-equal' % nm] = eq(V(ma[nm]), V(h.m[nm])) if nm in ma else False
         return out
+
+
+class _FeedRecorder:
+    """call-site stand-in for Parser.feed in the discipline contract: logs the call and makes two messages pending"""
+    def __call__(self, ip, args, kwargs):
+        slf, data = args
+        ip.ctx.event('parser.feed', id(slf), data, tuple(id(l) for l in ip.ctx.held))
+        slf.attrs['messages'].append(Earlier(100))
+        slf.attrs['messages'].append(Earlier(101))
+        return None
+
+
+@contract
+class ParserQueueDiscipline(Contract):
+    """put_bytes for ANY data: the parser is fed exactly once with exactly the object given, every access to the (shared, not
+    thread-safe) parser - the feed and each removal from its queue - happens while the parser lock is held, and everything
+    taken from the parser is put on the thread-safe queue in order, still under the lock (otherwise two callers interleave
+    their messages).  With the ASSUMED serialisability of the critical sections of one lock this gives per-sender order."""
+    key = 'C10.ParserQueue.put_bytes-discipline'
+    target = 'mido.backends._parser_queue:ParserQueue.put_bytes'
+    properties = ('C10', 'C05')
+    configs = ({'pending': 0}, {'pending': 1})
+    raises = {}
+    symbolic_only = True
+
+    def hooks(self, cfg):
+        return {raw_function('mido.parser:Parser.feed'): _FeedRecorder()}
+
+    def inputs(self, h, cfg):
+        h.earlier = [Earlier(0)]
+        o = parser_queue_obj(h, 'idle', h.earlier)
+        h.left = [Earlier(50 + i) for i in range(cfg['pending'])]     # left in the parser by an earlier call (not expected, but harmless)
+        for x in h.left:
+            attrs_of(h.parser)['messages'].append(x)
+        h.data = h.int_seq('data', bytes, lo=0, hi=255, mutable=False)
+        return [o, h.data], {}
+
+    def ensures(self, h, cfg, a, r):
+        log = h.ctx.log
+        lock = attrs_of(h.pq)['_parser_lock']
+        pq = attrs_of(h.parser)['messages']
+        feeds = [e for e in log if e[0] == 'parser.feed']
+        touches = [e for e in log if e[0] in ('deque.read', 'deque.popleft', 'deque.append') and e[1] == id(pq)]
+        puts = [e for e in log if e[0] == 'queue.put']
+        items = pq_items(h)
+        return {'parser-fed-exactly-once-with-the-data-given': len(feeds) == 1 and feeds[0][1] == id(h.parser) and feeds[0][2] is h.data,
+                'parser-fed-under-the-parser-lock': all(id(lock) in e[3] for e in feeds),
+                'parser-queue-only-touched-under-the-parser-lock': all(id(lock) in e[2] for e in touches),
+                'messages-handed-over-under-the-parser-lock': all(id(lock) in e[3] for e in puts),
+                'everything-parsed-is-queued-in-order-behind-the-earlier-messages': [x.i for x in items] == [0] + [x.i for x in h.left] + [100, 101],
+                'parser-queue-drained': len(pq) == 0}
 
 
 @contract
